@@ -31,6 +31,14 @@ type MatchSpec struct {
 	RemoteIPs    []string `json:"remote_ips,omitempty"`
 }
 
+// NamedMatcherSpec: a top-level "@name { ... }" block. A route attaches it with
+// "match @name"; its criteria then count as if written in the route's own
+// match block (lists of one criterion are concatenated).
+type NamedMatcherSpec struct {
+	Name  string    `json:"name"`
+	Match MatchSpec `json:"match"`
+}
+
 type HMACSpec struct {
 	Secrets    []string      `json:"secrets,omitempty"`     // inline raw secrets
 	SecretRefs []string      `json:"secret_refs,omitempty"` // ids in Secrets
@@ -79,7 +87,8 @@ type RouteSpec struct {
 	Channel     string        `json:"channel,omitempty"` // "" inbound | outbound | internal
 	Path        string        `json:"path"`
 	Match       *MatchSpec    `json:"match,omitempty"`
-	Basic       []KV          `json:"basic,omitempty"` // user/password
+	MatchRefs   []string      `json:"match_refs,omitempty"` // named matchers attached with "match @a @b"
+	Basic       []KV          `json:"basic,omitempty"`      // user/password
 	HMAC        *HMACSpec     `json:"hmac,omitempty"`
 	Forward     *ForwardSpec  `json:"forward,omitempty"`
 	Rate        *RateSpec     `json:"rate,omitempty"`
@@ -105,25 +114,26 @@ type EgressSpec struct {
 }
 
 type SysSpec struct {
-	Backend        string        `json:"backend"` // memory | sqlite
-	PullTokens     []string      `json:"pull_tokens,omitempty"`
-	AdminTokens    []string      `json:"admin_tokens,omitempty"`
-	IngressRate    *RateSpec     `json:"ingress_rate,omitempty"`
-	MaxBody        int           `json:"max_body,omitempty"`
-	MaxHeaders     int           `json:"max_headers,omitempty"`
-	MaxDepth       int           `json:"max_depth,omitempty"`
-	DropPolicy     string        `json:"drop_policy,omitempty"`
-	MaxBatch       int           `json:"max_batch,omitempty"`
-	DefaultTTL     time.Duration `json:"default_ttl,omitempty"`
-	MaxTTL         time.Duration `json:"max_ttl,omitempty"`
-	Secrets        []SecretSpec  `json:"secrets,omitempty"`
-	Egress         *EgressSpec   `json:"egress,omitempty"`
-	DefaultRetry   *RetrySpec    `json:"default_retry,omitempty"`
-	DefaultTimeout time.Duration `json:"default_timeout,omitempty"`
-	Routes         []RouteSpec   `json:"routes"`
-	Delivered      time.Duration `json:"delivered,omitempty"`
-	PublishPolicy  []string      `json:"publish_policy,omitempty"` // raw directive lines
-	Comment        string        `json:"comment,omitempty"`        // makes two texts differ without changing meaning
+	Backend        string             `json:"backend"` // memory | sqlite
+	PullTokens     []string           `json:"pull_tokens,omitempty"`
+	AdminTokens    []string           `json:"admin_tokens,omitempty"`
+	IngressRate    *RateSpec          `json:"ingress_rate,omitempty"`
+	MaxBody        int                `json:"max_body,omitempty"`
+	MaxHeaders     int                `json:"max_headers,omitempty"`
+	MaxDepth       int                `json:"max_depth,omitempty"`
+	DropPolicy     string             `json:"drop_policy,omitempty"`
+	MaxBatch       int                `json:"max_batch,omitempty"`
+	DefaultTTL     time.Duration      `json:"default_ttl,omitempty"`
+	MaxTTL         time.Duration      `json:"max_ttl,omitempty"`
+	Secrets        []SecretSpec       `json:"secrets,omitempty"`
+	Egress         *EgressSpec        `json:"egress,omitempty"`
+	DefaultRetry   *RetrySpec         `json:"default_retry,omitempty"`
+	DefaultTimeout time.Duration      `json:"default_timeout,omitempty"`
+	Routes         []RouteSpec        `json:"routes"`
+	Matchers       []NamedMatcherSpec `json:"matchers,omitempty"`
+	Delivered      time.Duration      `json:"delivered,omitempty"`
+	PublishPolicy  []string           `json:"publish_policy,omitempty"` // raw directive lines
+	Comment        string             `json:"comment,omitempty"`        // makes two texts differ without changing meaning
 }
 
 func q(s string) string { return fmt.Sprintf("%q", s) }
@@ -269,6 +279,11 @@ func (s *SysSpec) Render() string {
 		}
 		w("}")
 	}
+	for _, nm := range s.Matchers {
+		w("@%s {", nm.Name)
+		matchBody(&nm.Match, "  ", w)
+		w("}")
+	}
 	for _, r := range s.Routes {
 		head := q(r.Path)
 		if r.Channel != "" {
@@ -282,29 +297,12 @@ func (s *SysSpec) Render() string {
 		if s.Backend != "" && s.Backend != "sqlite" {
 			w("  queue { backend %s }", s.Backend)
 		}
+		if len(r.MatchRefs) > 0 {
+			w("  match @%s", strings.Join(r.MatchRefs, " @"))
+		}
 		if m := r.Match; m != nil {
 			w("  match {")
-			for _, x := range m.Methods {
-				w("    method %s", x)
-			}
-			for _, x := range m.Hosts {
-				w("    host %s", q(x))
-			}
-			for _, x := range m.Headers {
-				w("    header %s %s", q(x.Name), q(x.Value))
-			}
-			for _, x := range m.HeaderExists {
-				w("    header_exists %s", q(x))
-			}
-			for _, x := range m.Query {
-				w("    query %s %s", q(x.Name), q(x.Value))
-			}
-			for _, x := range m.QueryExists {
-				w("    query_exists %s", q(x))
-			}
-			for _, x := range m.RemoteIPs {
-				w("    remote_ip %s", q(x))
-			}
+			matchBody(m, "    ", w)
 			w("  }")
 		}
 		if r.Rate != nil {
@@ -410,6 +408,59 @@ func (s *SysSpec) Render() string {
 		w("}")
 	}
 	return b.String()
+}
+
+func matchBody(m *MatchSpec, ind string, w func(string, ...any)) {
+	for _, x := range m.Methods {
+		w(ind+"method %s", x)
+	}
+	for _, x := range m.Hosts {
+		w(ind+"host %s", q(x))
+	}
+	for _, x := range m.Headers {
+		w(ind+"header %s %s", q(x.Name), q(x.Value))
+	}
+	for _, x := range m.HeaderExists {
+		w(ind+"header_exists %s", q(x))
+	}
+	for _, x := range m.Query {
+		w(ind+"query %s %s", q(x.Name), q(x.Value))
+	}
+	for _, x := range m.QueryExists {
+		w(ind+"query_exists %s", q(x))
+	}
+	for _, x := range m.RemoteIPs {
+		w(ind+"remote_ip %s", q(x))
+	}
+}
+
+// matchOf: the criteria in force for a route: its own match block followed by
+// every attached named matcher, as if all were written in one block. nil: none.
+func (s *SysSpec) matchOf(r *RouteSpec) *MatchSpec {
+	if len(r.MatchRefs) == 0 {
+		return r.Match
+	}
+	out := &MatchSpec{}
+	add := func(m *MatchSpec) {
+		out.Methods = append(out.Methods, m.Methods...)
+		out.Hosts = append(out.Hosts, m.Hosts...)
+		out.Headers = append(out.Headers, m.Headers...)
+		out.HeaderExists = append(out.HeaderExists, m.HeaderExists...)
+		out.Query = append(out.Query, m.Query...)
+		out.QueryExists = append(out.QueryExists, m.QueryExists...)
+		out.RemoteIPs = append(out.RemoteIPs, m.RemoteIPs...)
+	}
+	if r.Match != nil {
+		add(r.Match)
+	}
+	for _, ref := range r.MatchRefs {
+		for i := range s.Matchers {
+			if s.Matchers[i].Name == ref {
+				add(&s.Matchers[i].Match)
+			}
+		}
+	}
+	return out
 }
 
 func (s *SysSpec) route(path string) *RouteSpec {
